@@ -8,7 +8,7 @@
      atfork_child_handler (inherited frames marked WRITTEN).
 
    It models the code AS IT IS.  Not modelled here (separate models): argument capture (C09),
-   events (C17), the `finish` and `recover` triggers, estimate-return, source-location filters.
+   events (C17), the `finish` and `recover` triggers, estimate-return.
    Shared by C02, C05, C17.                                                                    *)
 From Coq Require Import NArith ZArith List Bool.
 Import ListNotations.
@@ -23,11 +23,14 @@ Record trig := {
   t_size : option N;               (* TRIGGER_FL_SIZE_FILTER *)
   t_trace_on : bool; t_trace_off : bool;
   t_trace : bool;                  (* TRIGGER_FL_TRACE *)
-  t_caller : bool                  (* TRIGGER_FL_CALLER *)
+  t_caller : bool;                 (* TRIGGER_FL_CALLER *)
+  t_loc : option bool;             (* TRIGGER_FL_LOC (-L): Some true = lmode IN, Some false = lmode OUT (@hide) *)
+  t_finish : bool                  (* TRIGGER_FL_FINISH *)
 }.
 Definition notrig : trig :=
   {| t_filter := None; t_depth := None; t_time := None; t_size := None;
-     t_trace_on := false; t_trace_off := false; t_trace := false; t_caller := false |}.
+     t_trace_on := false; t_trace_off := false; t_trace := false; t_caller := false; t_loc := None;
+     t_finish := false |}.
 
 Inductive shape := PG | CYG.
 
@@ -39,7 +42,8 @@ Record cfg := {
   threshold : N;                   (* mcount_threshold (-t) *)
   max_stack : N;                   (* mcount_rstack_max *)
   sym_size : N -> N;               (* mcount_getsize *)
-  shp : shape
+  shp : shape;
+  lmode_in : bool                  (* mcount_triggers->loc_count > 0: some -L names a location to show *)
 }.
 
 Definition NO_TIME : N := 18446744073709551615.   (* FILTER_NO_TIME *)
@@ -81,6 +85,11 @@ Definition init : st := {| fc := fc0; enabled := true; cached := true; stack := 
 Definition init_z (z : N) : st :=
   {| fc := {| in_count := 0; out_count := 0; depth := 0; max_depth := FILTER_NO_MAX_DEPTH; ftime := NO_TIME; fsize := z |};
      enabled := true; cached := true; stack := []; ridx := 0; out := []; warned := false |}.
+
+(* record --disable / --trace=off (UFTRACE_TRACE_OFF): tracing starts switched off (mcount_enabled = false before the first
+   thread is prepared, so enable_cached = false as well) until a trace_on trigger *)
+Definition init_off : st := {| fc := fc0; enabled := false; cached := false; stack := []; ridx := 0; out := [];
+                               warned := false |}.
 
 Inductive ev := Enter (a : N) (t : N) | Leave (t : N) | ForkChild.
 
@@ -151,6 +160,8 @@ Definition with_fc (s : st) (f : fctl) (en : bool) : st :=
 (* mcount_entry_filter_check.  Returns the new state, the verdict, the trigger as seen (notrig when
    the function returned before the lookup) and the values saved by mcount_save_filter. *)
 Definition saved4 := (N * N * N * N)%type.
+Definition loc_out (c : cfg) (tr : trig) : bool :=
+  match t_loc tr with Some b => negb b | None => lmode_in c end.
 Definition entry_check (c : cfg) (s0 : st) (a : N) : st * verdict * trig * saved4 :=
   let f0 := fc s0 in
   let sv0 : saved4 := (depth f0, max_depth f0, ftime f0, fsize f0) in
@@ -170,7 +181,9 @@ Definition entry_check (c : cfg) (s0 : st) (a : N) : st * verdict * trig * saved
             end in
   if (match t_filter tr with None => fmode_in c && (in_count f =? 0)%Z | _ => false end)
   then (with_fc s f1 (enabled s), V_OUT, tr, sv) else
-  (* no location filters in this model: loc_count = 0 and no LOC triggers *)
+  (* location filter (-L): a function at a hidden location, or outside every shown one, is rejected here -
+     after the filter counts were changed, before the other trigger actions are looked at *)
+  if loc_out c tr then (with_fc s f1 (enabled s), V_OUT, tr, sv) else
   let f2 := match t_depth tr with
             | Some d => {| in_count := in_count f1; out_count := out_count f1; depth := 0; max_depth := d;
                            ftime := ftime f1; fsize := fsize f1 |}
@@ -220,10 +233,12 @@ Definition ghost_frame : frame :=
   {| f_addr := 0; f_start := 0; f_end := 0; f_flags := noflags; f_depth := 0;
      sv_depth := 0; sv_max := 0; sv_time := 0; sv_size := 0; f_ghost := true |}.
 
-(* TRIGGER_FL_FILTER | DEPTH | TIME_FILTER | SIZE_FILTER: the trigger changes the per-thread filter state *)
+(* TRIGGER_FL_FILTER | DEPTH | TIME_FILTER | SIZE_FILTER | FINISH (REJECTED_ENTRY_FLAGS): the trigger changes the per-thread
+   filter state, or is the finish trigger which mcount_entry_filter_record carries out: a rejected function with such a
+   trigger keeps a shadow-stack entry on the -pg shape as well *)
 Definition state_trig (tr : trig) : bool :=
   match t_filter tr, t_depth tr, t_time tr, t_size tr with
-  | None, None, None, None => false
+  | None, None, None, None => t_finish tr
   | _, _, _, _ => true
   end.
 
@@ -373,6 +388,46 @@ Definition dstep (c : cfg) (d : dstate) (e : ev) : dstate :=
   end.
 Definition exec (c : cfg) (es : list ev) (d : dstate) : dstate := fold_left (dstep c) es d.
 
+(* ---------------------------------------------------------------- the finish trigger
+   mcount_entry_filter_record: `if (tr->flags & TRIGGER_FL_FINISH) { record_trace_data(mtdp, rstack, NULL);
+   mcount_finish_trigger(); return; }` - carried out for every function that gets a shadow-stack entry (accepted, or
+   rejected with a frame kept), recorded or not, whatever the trace switch says; the thread is then dead
+   (mcount_unguard_recursion -> mtd_dtor: return addresses restored, buffers finished), nothing else is recorded. *)
+Definition finish_fires (c : cfg) (s0 : st) (a : N) : bool :=
+  let '(_, v, tr, _) := entry_check c s0 a in
+  match v with V_RSTACK => false | _ => t_finish tr && hooked c s0 a end.
+
+(* the entry that finishes: the frame as mcount_entry_filter_record has flagged it so far (no DISABLED mark yet, the
+   record index not advanced) is handed to record_trace_data: pending ENTRY records of the ancestors, then its own *)
+Definition finish_enter (c : cfg) (s0 : st) (a t : N) : st :=
+  let '(s, v, tr, sv) := entry_check c s0 a in
+  let cyg := match shp c with CYG => true | PG => false end in
+  let rej := match v with V_IN => false | _ => true end in
+  let fr := {| f_addr := a; f_start := if rej then 0 else t; f_end := 0;
+               f_flags := {| norecord := rej; notrace := false; filtered := false; written := false;
+                             disabled := false; ftrace := false; fcaller := false; cygprof := cyg |};
+               f_depth := ridx s; sv_depth := 0; sv_max := 0; sv_time := 0; sv_size := 0; f_ghost := false |} in
+  (* entry_record with the trace switch taken as on pushes exactly the frame flagged so far *)
+  let s1 := entry_record c (with_fc s (fc s) true) fr tr sv in
+  match stack s1 with
+  | [] => s1
+  | top :: anc =>
+      let '(top', anc', recs) := record_trace_data top anc in
+      {| fc := fc s1; enabled := enabled s; cached := cached s; stack := top' :: anc'; ridx := ridx s;
+         out := out s ++ recs; warned := warned s |}
+  end.
+
+Definition fstate := (st * list bool * bool)%type.        (* + this thread has finished *)
+Definition fstep (c : cfg) (d : fstate) (e : ev) : fstate :=
+  let '(s, hk, dead) := d in
+  if dead then d
+  else match e with
+       | Enter a t => if finish_fires c s a then (finish_enter c s a t, hk, true)
+                      else let '(s', hk') := dstep c (s, hk) e in (s', hk', false)
+       | _ => let '(s', hk') := dstep c (s, hk) e in (s', hk', false)
+       end.
+Definition exec_f (c : cfg) (es : list ev) (d : fstate) : fstate := fold_left (fstep c) es d.
+
 Definition hooked_legacy (c : cfg) (s : st) (a : N) : bool :=
   match shp c with
   | CYG => true
@@ -425,11 +480,18 @@ Fixpoint assoc {A} (d : A) (l : list (N * A)) (k : N) : A :=
   match l with [] => d | (k', v) :: r => if k =? k' then v else assoc d r k end.
 Definition mkcfg (tr : list (N * trig)) (fm cl : bool) (gd thr ms : N) (sizes : list (N * N)) (sh : shape) : cfg :=
   {| trig_of := assoc notrig tr; fmode_in := fm; has_caller := cl; gdepth := gd; threshold := thr;
-     max_stack := ms; sym_size := assoc 0 sizes; shp := sh |}.
+     max_stack := ms; sym_size := assoc 0 sizes; shp := sh; lmode_in := false |}.
+(* the same with location filters: [lm] = some -L option names a location to show *)
+Definition mkcfgL (tr : list (N * trig)) (fm cl lm : bool) (gd thr ms : N) (sizes : list (N * N)) (sh : shape) : cfg :=
+  {| trig_of := assoc notrig tr; fmode_in := fm; has_caller := cl; gdepth := gd; threshold := thr;
+     max_stack := ms; sym_size := assoc 0 sizes; shp := sh; lmode_in := lm |}.
 
 (* one correspondence case: model run vs. observed states and records *)
 Definition agree_case (c : cfg) (es : list ev) (ostates : list obs) (orecs : list seen5) : bool :=
   let '(l, (s, _)) := trace c es (init, []) in
+  list_eqb obs_eqb l ostates && list_eqb seen_eqb (map seen (out s)) orecs.
+Definition agree_case_off (c : cfg) (es : list ev) (ostates : list obs) (orecs : list seen5) : bool :=
+  let '(l, (s, _)) := trace c es (init_off, []) in
   list_eqb obs_eqb l ostates && list_eqb seen_eqb (map seen (out s)) orecs.
 Definition agree_case_z (z : N) (c : cfg) (es : list ev) (ostates : list obs) (orecs : list seen5) : bool :=
   let '(l, (s, _)) := trace c es (init_z z, []) in
